@@ -122,7 +122,12 @@ CLAIMED = {
        "chain_meets, ends at the committer's commit secret); the key schedule is a function of its inputs (and equals the RFC formulas, C13); in every reachable world every "
        "member holds exactly its entitled keys; the epoch moves by one. Tie: ~7.5k rows per quick run from random histories on the real library (commit = tree transformation, "
        "receivers' and joiners' private slots, key invariant) replayed on the compiled tree model, plus the direct oracle on real members after every commit: equal context, "
-       "exported tree, roster, epoch authenticator, exported secret, epoch = previous + 1, cross-decryption of application messages.",
+       "exported tree, roster, epoch authenticator, exported secret, epoch = previous + 1, cross-decryption of application messages. MlsVerif.Props.C01Group composes the layers over whole "
+       "histories on a model with symbolic secrets (Model/Group: a world of parties = tree-layer private state + epoch + epoch secret; executable commit with path-secret chain, seals, decap, "
+       "Welcome): invariant_holds / agreement (every reachable world: parties at the same epoch hold the same epoch and init secret), new_epoch_secret_is_committers, "
+       "receiver_computes_committers_commit_secret (whatever position it decrypts at), receiver_not_stuck / commit_never_stuck (progress for every entitled party), joiner_gets_members_state; "
+       "tie: every history is replayed as `g.init` / `g.commit` rows and the model must print the real tree and, as `g.classes`, the partition of all parties (members and removed members' "
+       "retained groups) by epoch secret that the real groups' epoch authenticators give (~5k rows per quick run).",
   note="Trusted: Lean kernel; hand-written tree model validated by the stream; harness oracles. Not a theorem: success of the real HPKE open (C14 covers the construction), the "
        "transcript-hash chain over real messages, mixed cipher suites/providers (quick uses RustCrypto suite 1). Fixed defects found by this check: F1, F15.",
   ref="DESIGN.md §4 C01/C09"),
@@ -132,7 +137,10 @@ CLAIMED = {
        "same commit (seal_recipients_in_resolution, seals_exact); after a removal none of the stamps the removed member held occurs anywhere in the tree, and no seal of any later "
        "encap targets a key it holds (removed_keys_gone, removed_cannot_open_seals); resolution facts. Tie: the tree stream compares the model's recipient sets with the recipients of "
        "every real hpke_seal issued while a commit is built (recording CipherSuiteProvider, classified by the EncryptContext label); joiner secrets must go to init keys only; every "
-       "removed member's retained Group is fed all later commits and must reject them.",
+       "removed member's retained Group is fed all later commits and must reject them. MlsVerif.Props.C02Group (composed model with symbolic secrets and a Dolev-Yao derivability relation): "
+       "removed_member_forward_secrecy / removed_ghost_forward_secrecy / outsider_forward_secrecy — from its last state and all public seals a party removed by a path commit derives no path, "
+       "commit or epoch secret of that or any later epoch (hypothesis NoReintro: no key it knows is re-introduced; machine-checked negative example for a path-less Remove), "
+       "ciphertext_recipients, welcome_alone / welcome_contents, closure_sound; tie: the `g.*` rows of the replayed histories.",
   note="Trusted: Lean kernel, tree model validated by the stream, recording wrapper. 'Learns nothing' is symbolic: it follows from removed_cannot_open_seals under free-term crypto; "
        "side condition FreshKeys (a Remove plus an Add re-using the removed member's HPKE key is accepted by the model and the code: readd_same_key).",
   ref="DESIGN.md §4 C02"),
